@@ -12,7 +12,9 @@ CORE = "rink_core"
 
 # documented range of every numeric Match keyword (datepatterns grammar): keyword -> (digits, lo, hi)
 KEYWORD_RANGES = {"fullyear": (4, 0, 9999), "shortyear": (2, 0, 99), "century": (2, 0, 99), "monthnum": (2, 1, 12), "day": (0, 1, 31),
-                  "fullday": (2, 1, 31), "min": (2, 0, 59), "ordinal": (3, 1, 366), "isoyear": (4, 0, 9999), "isoweek": (2, 1, 53)}
+                  "fullday": (2, 1, 31), "min": (2, 0, 59), "ordinal": (3, 1, 366), "isoyear": (4, 0, 9999), "isoweek": (2, 1, 53),
+                  # clock fields (parsed with parse_range in arms of their own): ISO 8601 / chrono ranges, second 60 is the leap second
+                  "hour12": (2, 1, 12), "hour24": (2, 0, 23), "sec": (2, 0, 60)}
 
 
 def run(chk, F):
@@ -224,6 +226,19 @@ def keywords(chk, F):
                 ok = name == kw and dg == digits and vals[:2] == [lo, hi]
             except (KeyError, IndexError, TypeError):
                 ok = False
+        if not nm:
+            # arms that call parse_range(text, digits, lo..=hi) themselves: every such call in the arm has the documented shape
+            prs = [c for c in hir_walk(a["body"]) if c.get("k") == "Call" and c["f"].get("k") == "Path" and c["f"]["r"].get("path", "").endswith("datetime::parse_range")]
+            shapes = []
+            for c in prs:
+                try:
+                    dg = c["args"][1]["lit"]["v"]
+                    vals = [x["lit"]["v"] for x in hir_walk(c["args"][2]) if x.get("k") == "Lit" and x["lit"].get("lit") == "int"]
+                    shapes.append((dg, vals[:2]))
+                except (KeyError, IndexError, TypeError):
+                    shapes.append(None)
+            got = shapes
+            ok = bool(shapes) and all(sh == (digits, [lo, hi]) for sh in shapes)
         chk.decide(ok, "keyword-table", "rink_core::parsing::datetime::parse_date", "range:" + kw, "%s:%d" % (fn.file, a["line"]),
                    "%s: %s digits, %d..=%d" % (kw, digits or "any", lo, hi), "%s is parsed as %s, documented: %s digits in %d..=%d" % (kw, got, digits, lo, hi))
     chk.extra["pattern_keywords"] = sorted(kws)
